@@ -177,8 +177,6 @@ def main(tier):
                     # the code is what the model says, and the model is known to deviate from the standard here
                     if s == "uper" and has_semi(tree):
                         run.known_finding("C02-uper-semiconstrained", line)
-                    elif s == "uper" and has_noninvolutive_choice(tree):
-                        run.known_finding("C02-uper-choice-order", line)
                     else:
                         run.violation("oracle:%s" % s, dict(replay, what="bytes differ from the standard encoding"))
             if i < 3:
